@@ -62,6 +62,12 @@ fn gate_cases(rng: &mut Rng) -> Vec<FileCase> {
             it.raw = Some(raw);
             out.push(FileCase { tag: format!("uses-{}-{}", m, case), ast: vec![it], exec: false, stack_hint: true, input: vec![] });
         }
+        // in label position, followed by a colon
+        for (j, text) in [format!("halt\n{}: add r0 r0 #1\nhalt\n", m), format!("halt\n{}: halt\n", m.to_uppercase()), format!("{}:\nhalt\n", m)].iter().enumerate() {
+            let mut it = plain("halt");
+            it.raw = Some(text.clone());
+            out.push(FileCase { tag: format!("label-colon-{}-{}", i, j), ast: vec![it], exec: false, stack_hint: true, input: vec![] });
+        }
         // in label position
         let raw = format!("halt\n{} add r0 r0 #1\nhalt\n", m);
         let mut it = plain("halt");
